@@ -19,6 +19,7 @@ What is proved, for ALL programs (any `Node` tree, typed or not):
   `ident`).  `visit_restores_partial`, `class_absorbs_super`, `decl_restores`; the full statement
   `visit_restores` is refuted by `visit_restores_counterexample` (replayed on the real
   `ScalaTranslator` by the harness; the generator never builds such a block).
+* `visit_program_state` — the object after `visit_program`, attribute by attribute.
 * `program_state_independent` — the text depends on the translator object only through
   `ident, is_unit, is_lambda, _cast_integers, _nodes_stack, package`.
 * `history_independent`, `translate_twice`, `history_independent_from` — a translator object that has
@@ -89,6 +90,16 @@ theorem program_state_independent (a b : Obj) (h : Agree a b) (p : Program) : te
     started at `ident = 0` or no top-level declaration leaks -/
 theorem visit_program_restores (ob : Obj) (p : Program) (h : ob.st.ident = 0 ∨ leaksL p.decls = false) :
     Agree (visitProgram ob p) ob := visitProgram_agree ob p h
+
+/-- the translator object after `visit_program`, exactly: `context` points at the new program (it is never
+    reset: the object keeps the last program's context alive), `program` is the text, `ident` is 0 if a
+    top-level declaration leaks, everything else — `package` included — is as before -/
+theorem visit_program_state (ob : Obj) (p : Program) :
+    (visitProgram ob p).st =
+      { ob.st with context := TransKotlin.programClasses p, ident := bif leaksL p.decls then 0 else ob.st.ident } ∧
+    (visitProgram ob p).program = some (text ob p) ∧ (visitProgram ob p).package = ob.package := by
+  refine ⟨(visitProgram_st ob p).1, ?_, (visitProgram_st ob p).2⟩
+  simp [text, translate, visitProgram]
 
 /-- translating any list of programs first does not change the text of the next program -/
 theorem history_independent (package : Option String) (ps : List Program) (p : Program) :
